@@ -91,6 +91,9 @@ def random_scenario(rng, kind, policy=None, bind="", mapping_p=0.25, mon_p=0.4, 
         # the same scenario in another time unit: one tick = 2**e seconds, the rate 2**-e times as large (stamps a
         # picosecond apart on a terabit link / virtual times beyond 2**30 on a very slow one): nothing may change
         sc["tscale"] = rng.choice([-40, -40, -33, 20, 30])
+    if kind in ("SP", "WFQ", "DRR") and rng.random() < 0.2:
+        # the same weights / priorities in another unit (fractional weights summing to less than 1, or huge ones)
+        sc["wscale"] = rng.choice([-4, -3, -2, -1, 3, 10])
     if rng.random() < 0.12:
         # the environment's clock does not start at 0 (VirtualClock's formula max(now, auxVC) presupposes auxVC = 0 at
         # the start: no negative origin there)
